@@ -220,7 +220,7 @@ REG["C08"] = {
 }
 
 REG["C10"] = {
-    "units": ["markdown", "mdupdate"],
+    "units": ["markdown", "mdupdate", "genoutcome"],
     "thorough_extra": ["replay"],
     "quick_extra": ["replay"],
     "scope": "PARTIAL — MarkdownUpdateGenerator::generate_update(document, outcomes) over the tokenizer contract (unit markdown, co-owned): the result is upd_fold over a tokenization that covers the "
@@ -230,8 +230,8 @@ REG["C10"] = {
              "keeps its own lines (lemma_upd_test: number and order of blocks, language, configuration, comments). `outcomes[testcase_index]` is in bounds when the caller passes one outcome "
              "per test case (= per block with a command: lemma_md_doc of C06). has_command(code_lines) == 'some line starts with `$ `'. No outcomes: the document is returned as it is.",
     "assumptions": [
-        "Outcome is opaque: what OutcomeTestGenerator::generate_testcase writes for an outcome (gen_text) is uninterpreted, so 'keeps the expectation lines of passing tests exactly as written' "
-        "is not decided here; max_backtick_size is uninterpreted (max_ticks); str::trim_start uninterpreted",
+        "in unit mdupdate Outcome is opaque (gen_text); what OutcomeTestGenerator::generate_testcase writes is decided in unit genoutcome (co-owned with C09): for a passing test "
+        "gen_spec is the command lines + the expectation lines exactly as written (Expectation::original_string) + the exit-code line; max_backtick_size is uninterpreted (max_ticks); str::trim_start uninterpreted",
         "lines are those of str::lines (uninterpreted; CR LF and a missing final line feed are therefore normalised: 'byte for byte' is decided at the level of lines, each written with one LF); "
         "axiom_lines_no_lf: no line contains a line feed",
         "String::push_str, StringNewline::assure_newline (read from src/newline.rs), \"`\".repeat(n), format!/formatln! helpers with ensures derived from the literal (R8')",
@@ -242,6 +242,31 @@ REG["C10"] = {
                     "of up to N constructs from 14 shapes plus up to min(N,4) lines from 13 shapes (quick N=3: 5 333 documents; thorough N=4; 610 134 documents for N=5 were run once), "
                     "checks no panic / no error, idempotence, same commands, and the lines outside scrut blocks by an independent scan",
                     "the body generated for a test (generators/outcome.rs)", "the Cram update generator", "CR LF documents"],
+}
+
+REG["C09"] = {
+    "units": ["genoutcome"],
+    "thorough_extra": ["replay"],
+    "quick_extra": ["replay"],
+    "scope": "PARTIAL — (1) what the generators write for an outcome: Outcome::generate_testcase == gen_spec (the command as `$ ` / `> ` lines; for a passing test its expectation lines exactly as "
+             "written; for a failed comparison the matched expectations as written and every unexpected output line as a new expectation line; the `[n]` line exactly for a non-zero exit code), "
+             "OutputStream::to_output_string == out_string, generate_testcase_expression, generate_testcase_exit_code. (2) Line level, over those contracts (lemma_line_reads_back, "
+             "lemma_out_string_reads_back, lemma_line_not_exit_code): the line written for an output line -- the text itself, `<text> (no-eol)` for a last line without line feed, `<escaped> (escaped)` "
+             "for unprintable content, `<text> (equal)` when the text ends like a modifier or looks like an exit code -- reads back through the expectation grammar (C08: line_parts, default registry) "
+             "and the rule kinds (C04) as an unquantified expectation that matches exactly that output line, and is never taken for the exit code of the test.",
+    "assumptions": [
+        "Escaper::escaped_expectation / has_unprintable are uninterpreted here (exp_text, esc_unp); axiom_exp_text restates what unit escaping proves (C11.ascii.lossless / C11.unicode.lossless) plus "
+        "'has_unprintable <=> the escaped form is written' (read from escaped_expectation_* / escaped_printable_*)",
+        "which Rule struct a kind name makes (registry) is read, not verified: equal -> EqualRule (text + LF), no-eol -> EqualNoEolRule (text), escaped -> EscapedRule (decoded expression, LF disregarded) "
+        "with the matching semantics proved under C04; axiom_default_registry (equal, escaped, no-eol registered, names are plain words)",
+        "rule.rs::ends_in_modifier (static regular expression) trusted as has_proper_mod; extract_exit_code (regex) uninterpreted with axiom_exit_code_shape (an accepted line ends in `]`)",
+        "precondition: the command is not empty (generate_testcase_expression indexes the first line; a test case with an empty command comes from a `$ ` line with nothing after it)",
+        "lossy_string!, format!/formatln! helpers (R8'), String::push_str, int Display (int_text), byte-string literal b\"\\n\" (R47)",
+    ],
+    "not_decided": ["how LineParser classifies the written body lines and the document formats around them (fences, Cram indentation): BOUNDED stand-in only — verif-replay c09 N runs the full round trip "
+                    "create -> parse -> validate on the real crate for every output over {a, space, (, ?, ), LF, TAB} up to N bytes plus ~230 outputs built from lines that look like test syntax, "
+                    "exit codes 0 and 3, both formats, both escapers (quick N=3: 5 048 cases, thorough N=5). It reports two classes that are listed as known findings (below)",
+                    "the `update` / `--convert` paths beyond generate_testcase (C10 decides the Markdown update generator's block structure)", "stderr, combined output streams"],
 }
 
 VX_NOTE = ("Trusted: Verus/Z3; the extractor's rewrite rules (DESIGN §4.2, each firing is logged in evidence.rewrites_fired); "
@@ -288,6 +313,10 @@ LEVELS["C08"] = {"category": "proof", "technique": "Verus postconditions on extr
     "text": "Unbounded proof over all lines (without line feed) and all registries with plain-word names: how a line is split into expression / kind / quantifier, what the quantifier means, "
             "and that the canonical rendering reads back as the same parts. Partial: the regular expression itself is a trusted contract (cross-checked bounded), rule makers are opaque.",
     "design_ref": "DESIGN.md §5 C08", "note": VX_NOTE}
+LEVELS["C09"] = {"category": "proof", "technique": "Verus postconditions on extracted generators/outcome.rs and OutputStream::to_output_string; read-back lemmas over the C08 grammar and the C04 rule kinds",
+    "text": "Unbounded proof over all outcomes: what is written, and that every written output line reads back as an expectation matching exactly that line. Partial: body-line classification by "
+            "LineParser and the document formats only by a bounded end-to-end enumeration labelled as such (with two known findings).",
+    "design_ref": "DESIGN.md §5 C09", "note": VX_NOTE}
 LEVELS["C10"] = {"category": "proof", "technique": "Verus postconditions on extracted MarkdownUpdateGenerator::generate_update and has_command over the imported tokenizer contract; lemmas over upd_fold",
     "text": "Unbounded proof over all documents (as sequences of lines) and all outcome lists: what update writes, token by token; lines outside scrut blocks kept in order, blocks keep language, "
             "configuration and comments, nothing truncated, no index out of bounds. Partial: idempotence / re-parsing of the output only by a bounded enumeration labelled as such.",
@@ -302,7 +331,6 @@ LEVELS["C07"] = {"category": "proof", "technique": "Verus: LineParser methods an
     "design_ref": "DESIGN.md §5 C07", "note": VX_NOTE}
 
 NOT_APPLICABLE = [
-    {"property_id": "C09", "reason": "composition generate->parse->validate through format!-heavy rendering and the regex crate; contracts on the pieces in reach do not compose without a verified parser (DESIGN §10)"},
     {"property_id": "C12", "reason": "a property of bash executing bash_runner.template; no Rust function's postcondition can state it (DESIGN §10)"},
     {"property_id": "C15", "reason": "decision is interleaved with process spawning/TempDir/Instant inside execute_all; a modular contract would need almost the whole body behind external_body stubs (DESIGN §10)"},
     {"property_id": "C17", "reason": "reader is serde_yaml (external), writer is format!; an inverse law needs the parser's semantics (DESIGN §10)"},
